@@ -18,6 +18,9 @@ def c14(c):
         "(call results incl. closed and queue-full, identity and moment of every frame handed to the socket, final wire, close callback). The finer interleaving "
         "the theorems quantify over - another goroutine between two writeFrame calls of one WriteMessage - is excluded in the code by c.mux being held from the "
         "closed check to the last fragment: read off the code; a mutant that drops the lock between fragments is caught by the end-to-end oracle, not by the proof. "
+        "DEFLATE is not modelled: the deflated length of a payload is an oracle input of the model's begin_msg (the admission rule of a bounded queue counts the "
+        "fragments of the bytes that actually go out). The harness computes the deflated form with compress/flate as permessage-deflate prescribes (sync flush, last "
+        "four bytes dropped) and the wholeness oracle checks every accepted message's frames against it byte for byte, so a wrong reference shows up as message-lost. "
         "A drainer that has written its last frame exits asynchronously: before a bounded-queue length check the harness lets it settle and re-runs a disagreeing "
         "schedule with long settling times before reporting it",
         "the callback-side instantiation (coq/wsconc/Callbacks.v: upgrade job = job 0 containing the open handler, i-th message callback = job i+2 dispatched "
@@ -36,7 +39,7 @@ def c14(c):
         "a bounded send queue (BlockingModSendQueueMaxSize > 0) refuses a WriteMessage as a whole before its first fragment is queued (c14_all_or_none; "
         "the defect that it could refuse half-way is fixed in /repo, the signature partial-message-queue-full stays armed: one bounded-queue cell per round)",
     ]
-    args = ["-n", n(c, 4, 30), "-qn", n(c, 600, 20000)]
+    args = ["-n", n(c, 4, 30), "-qn", n(c, 800, 10000)]
     if c.tier == "thorough":
         args.append("-full")
     c.harness("wsconc", args, overlay=False, model=MODEL, timeout=3000)
@@ -57,7 +60,9 @@ MANIFEST = {
              "hand-over; every queue bound, every answer of Conn.Write, every action sequence): c14_whole - each call's accepted frames are a prefix of its frames (all of them when it "
              "returned nil, none when refused as closed), what was handed to the socket is a prefix of the per-call accepted sequences concatenated in lock order, and without a socket "
              "error the wire is that prefix and the rest is exactly: frame in the drainer's hand, queued frames, frames freed by CloseAndClean - so no frame of another call can sit "
-             "inside a message; c14_all_or_none - a call that returned nil has all its frames accepted, a call refused as closed or because the bounded queue has no room for the "
+             "inside a message; c14_admission - on an open connection with a bounded queue a WriteMessage is refused as a whole exactly when queue length + k > bound, k = the "
+             "number of fragments of the bytes that go out (the DEFLATED length when compression applies, an oracle input), and then nothing of it is queued; "
+             "c14_all_or_none - a call that returned nil has all its frames accepted, a call refused as closed or because the bounded queue has no room for the "
              "whole message has none; c14_no_loss_no_dup - open, no socket error, no drainer alive: wire = accepted sequence, and the drainer's own steps always reach that state; "
              "c14_whole_messages - if moreover every call returned nil, the wire is the concatenation in lock order of the calls' whole frame sequences; "
              "c14_single_drainer - never a second drainer, none in direct mode, alive iff the queue is non-empty; c14_closed - a write after CloseAndClean is refused as a whole. "
@@ -65,9 +70,12 @@ MANIFEST = {
              "the close job, later messages refused) compiled to the serializer LTS of coq/sched, every executor and interleaving: started jobs are a prefix without repetition of "
              "open; message 0..m-1; close, the start/end trace is serial (every job has ended before the next starts: open completes before the first message callback, message "
              "callbacks never overlap, close starts after the last one ended), and when the drainer has returned exactly that list has run - by c05_fifo_once, c05_mutex, c05_all_run. "
-             "Every run, correspondence part: websocket.NewServerConn over a net.Conn whose Write the harness holds, direct and queued mode, queue bound 0 or 2-8, generated "
-             "schedules of WriteMessage (1-4 fragments) / socket write returns (ok, error) / CloseAndClean replayed on the extracted model: call results, every frame handed "
-             "to the socket and when, final wire, close callback must agree. End-to-end part: real nbhttp engines (IOModNonBlocking, IOModBlocking, IOModMixed) and net/http servers with the real Upgrader in the paths poller-driven, blocking with the "
+             "Every run, correspondence part: websocket.NewServerConn over a net.Conn whose Write the harness holds (frame limit 16), direct and queued mode, queue bound 0 or 1-8, "
+             "write compression off / on at levels -2..9, payloads zeros / text / seeded random; random schedules of WriteMessage / socket write returns (ok, error) / CloseAndClean, and "
+             "the admission grid of a bounded queue (bound x compression x payload class x lengths k*16-2..k*16+2 and lengths whose deflated size sits at a frame multiple x room left "
+             "0..needed+1; sampled in the quick tier, swept completely in the thorough tier) replayed on the extracted model: call results, the bytes of every frame handed to the socket "
+             "and when, final wire, close callback must agree; wholeness oracle on the same runs: a refused message leaves nothing on the wire, no message starts inside an unfinished "
+             "one, every accepted message is there as one complete frame sequence; after a disagreement the schedule goes on implementation-only so that the oracle can produce a failing input. End-to-end part: real nbhttp engines (IOModNonBlocking, IOModBlocking, IOModMixed) and net/http servers with the real Upgrader in the paths poller-driven, blocking with the "
              "engine's parser loop, blocking with HandleRead, transferred to the poller (from a blocking engine and from net/http), epoll LT / ET / ET+ONESHOT, direct and queued writes, "
              "MaxWebsocketFramePayloadSize 64..4096; per connection up to 10 goroutines x up to 80 messages of up to 8 fragments through WriteMessage / WriteFrame, echoes and pongs "
              "written from callbacks, client messages in random fragments and TCP segments, slow handlers; endings: close frame, abrupt disconnect (idle / during a handler / during the "
